@@ -308,6 +308,8 @@ def encode(desc, value):
         if desc in BITSTRING_TYPES:
             return encode_bits(desc, value)
         raise DataError("unknown type")
+    if desc[0] == "fixedstring":
+        return encode_fixed_string(desc[1], value)
     if desc[0] == "nbytes":
         return encode_nbytes(desc[1], value)
     if desc[0] == "array":
@@ -333,6 +335,8 @@ def decode(desc, buffer):
         if desc in BITSTRING_TYPES:
             return decode_bits(desc, stream)
         raise DataError("unknown type")
+    if desc[0] == "fixedstring":
+        return decode_fixed_string(desc[1], stream)
     if desc[0] == "nbytes":
         return decode_nbytes(desc[1], stream)
     if desc[0] == "array":
